@@ -841,6 +841,10 @@ class PulseStorage(MutableMapping[str, Serializable]):
 
         self._temporary_storage = dict() # type: Dict[str, StorageEntry]
         self._transaction_storage = None
+        # the objects that are being / were serialized in the running transaction (identifier -> object) and the
+        # identifier the transaction was started for
+        self._transaction_objects = None
+        self._transaction_root = None
 
     def _deserialize(self, serialization: str) -> Serializable:
         decoder = JSONSerializableDecoder(storage=self)
@@ -950,11 +954,27 @@ class PulseStorage(MutableMapping[str, Serializable]):
         try:
             if is_transaction_begin:
                 self._transaction_storage = dict()
+                self._transaction_objects = dict()
+                self._transaction_root = identifier
+
+            # one identifier names one object per transaction. PulseStorage.__contains__ does not know the identifiers
+            # of the running transaction, so a nested object may arrive here more than once: the same object again is
+            # serialized already (or is being serialized), another object with that identifier is a clash.
+            registered = self._transaction_objects.setdefault(identifier, serializable)
+            if registered is not serializable:
+                raise RuntimeError('Identifier assigned twice with different objects', identifier)
+            if identifier in self._transaction_storage:
+                return
 
             encoder = JSONSerializableEncoder(self, sort_keys=True, indent=4)
 
             serialization_data = serializable.get_serialization_data()
             serialized = encoder.encode(serialization_data)
+            if self._transaction_root in encoder.referenced_identifiers:
+                # (only the stored object that is being replaced can be found under this identifier; the new document
+                # of the identifier would refer back to itself through the document serialized here)
+                raise RuntimeError('The object stored under the identifier that is being overwritten is part of its '
+                                   'replacement', self._transaction_root)
             self._transaction_storage[identifier] = self.StorageEntry(serialized, serializable)
 
             if is_transaction_begin:
@@ -965,6 +985,8 @@ class PulseStorage(MutableMapping[str, Serializable]):
         finally:
             if is_transaction_begin:
                 self._transaction_storage = None
+                self._transaction_objects = None
+                self._transaction_root = None
 
     def clear(self) -> None:
         """Clears the temporary storage.
@@ -1068,10 +1090,12 @@ class JSONSerializableEncoder(json.JSONEncoder):
         super().__init__(*args, **kwargs)
 
         self.storage = storage
+        self.referenced_identifiers = set()
 
     def default(self, o: Any) -> Any:
         if isinstance(o, Serializable):
             if o.identifier:
+                self.referenced_identifiers.add(o.identifier)
                 if o.identifier not in self.storage:
                     self.storage[o.identifier] = o
                 elif o is not self.storage[o.identifier]:
